@@ -633,6 +633,11 @@ class Engine:
                 if self.is_value_type(bt):
                     st.env[vid] = self.fresh_value(bt, 'any.' + rd.get('name', 'v'))
                     return LocalLV(vid)
+                if bt.kind == 'iter' and bt.args and bt.args[0].kind == 'set' and not t.ref:
+                    # an arbitrary iterator of a std::set<edge>: any set, any key, end or not (the contract's requires clauses say more)
+                    nm_ = 'any.' + rd.get('name', 'it')
+                    st.env[vid] = Rec('setiter', {'ref': self.fresh(nm_ + '.set', I), 'key': self.fresh(nm_ + '.key', I), 'end': self.fresh(nm_ + '.end', B)})
+                    return LocalLV(vid)
                 if not t.ref:
                     # a local variable that is an object of its own: created by this function, hence distinct from every object
                     # reachable from the inputs (fresh objects carry negative references); its contents are arbitrary
@@ -1044,6 +1049,14 @@ class Engine:
         if isinstance(b, LocalLV) and b.var not in st.env and b.var in s2.env: st.env[b.var] = s2.env[b.var]
         if z3.is_true(z3.simplify(c)): return a
         if z3.is_false(z3.simplify(c)): return b
+        if lval and isinstance(a, LVS) and isinstance(b, LVS) and not isinstance(a, ObjLV) and not isinstance(b, ObjLV):
+            try:
+                return merge_vals([c, z3.BoolVal(True)], [a, b])
+            except Unsupported:
+                # two different variables: the conditional is read, not assigned (an assignment through it would need an l-value merge);
+                # the value read is the conditional of the two values
+                if n.get('_assigned_through'): raise
+                return merge_vals([c, z3.BoolVal(True)], [self.load(s1, a), self.load(s2, b)])
         return merge_vals([c, z3.BoolVal(True)], [a, b])
 
     def ev_ArraySubscriptExpr(self, n, st, fr):
